@@ -17,6 +17,10 @@ from ..eigstubs import EigWorld, sym_matrix, dense_of
 from .. import forksym as FS
 
 
+def build(cfg, values=None):
+    return build_conecyl(cfg, values)
+
+
 def run_lb(cfg, values=None, ctx=None):
     """-> (obligations, assumptions, info) or raises"""
     import random
@@ -126,7 +130,63 @@ def run_lb(cfg, values=None, ctx=None):
     return obs, assumptions, info, order_obs
 
 
+def build_conecyl(cfg, values=None):
+    """ConeCyl.lb (the third copy of the wrapper): with symbolic k0, kG0, kG0_Fc, kG0_P, kG0_T on the object (the routine that
+    computes them is C16's subject and is replaced by a no-op) the matrices handed to the solver are those of the documented load
+    case, the reported multipliers are -1/mu of the same column, the vectors are padded with zeros on the prescribed amplitudes"""
+    from ..conesym import ConeCtx
+    ctx = ConeCtx(values=values, seed=cfg.get('seed', 0))
+    V = ctx.V
+    case = cfg['case']
+    W = EigWorld(V, recip=True)
+    obs = []
+    with ctx.shadow(extra_stubs={'compmech.conecyl.conecyl.eigsh': W.eigsh}):
+        cc = ctx.new_cone('clpt_donnell_bc1', 1, 1, 1)
+        cc.r2, cc.L, cc.alphadeg = V('r2'), V('L'), V('alphadeg')
+        cc.Fc, cc.P, cc.T = V('Fc'), V('P'), V('T')
+        cc._rebuild()
+        n = cc.get_size()
+        mats = {nm: sym_matrix(nm, n, list(range(n)), V) for nm in ('k0', 'kG0', 'kG0_Fc', 'kG0_P', 'kG0_T')}
+        for nm, M_ in mats.items():
+            setattr(cc, nm, M_)
+        class WithGivenMatrices(type(cc)):
+            __slots__ = ()
+
+            def _calc_linear_matrices(self, *a, **k):
+                return None
+        cc.__class__ = WithGivenMatrices
+        cc.num_eigvalues = cfg['num']
+        cc.lb(combined_load_case=case)
+        pos = cc.num0 if hasattr(cc, 'num0') else 3
+        D = {nm: dense_of(M_) for nm, M_ in mats.items()}
+        fixed, var = {None: (None, 'kG0'), 0: (None, 'kG0'), 1: ('kG0_T', 'kG0_Fc'), 2: ('kG0_P', 'kG0_Fc'), 3: ('kG0_Fc', 'kG0_T')}[case]
+        call = W.calls[-1]
+        Ad, Md = dense_of(call['A']), dense_of(call['M'])
+        if Ad.shape != (n - pos, n - pos):
+            obs.append(('solver-matrix-size', Sym.lift(Ad.shape[0]), Sym.lift(n - pos)))
+        else:
+            for i in range(n - pos):
+                for j in range(n - pos):
+                    exp_M = D['k0'][pos + i, pos + j] + (D[fixed][pos + i, pos + j] if fixed else 0)
+                    obs.append(('solver-stiffness-matrix[%d,%d]' % (i, j), Md[i, j], exp_M))
+                    obs.append(('solver-load-matrix[%d,%d]' % (i, j), Ad[i, j], D[var][pos + i, pos + j]))
+        eigvals = np.asarray(cc.eigvals, dtype=object)
+        eigvecs = np.asarray(cc.eigvecs, dtype=object)
+        mus = [pr for pr in W.pairs if pr[0] == len(W.calls) - 1]
+        if eigvecs.shape[0] != n:
+            obs.append(('eigvecs-rows', Sym.lift(eigvecs.shape[0]), Sym.lift(n)))
+        for i in range(min(len(eigvals), len(mus), eigvecs.shape[1] if eigvecs.ndim == 2 else 0)):
+            obs.append(('pairing[%d]' % i, eigvals[i] * mus[i][2], -1))
+            for r in range(n):
+                obs.append(('vector[%d,%d]' % (i, r), eigvecs[r, i], mus[i][3][r - pos] if r >= pos else 0))
+    info = {'values': {k: str(v) for k, v in ctx.used_values.items()}}
+    return obs, [], info
+
+
 def job(cfg):
+    if cfg.get('target') == 'ConeCyl.lb':
+        from .. import kprop
+        return kprop.job((__name__, cfg))
     reset()
     out = {'group': cfg['group'], 'n': 0, 'unsat': 0, 'sat': [], 'unknown': [], 'solver_s': 0.0, 'queries': 0, 'samples': [], 'extra': {}, 'cfg': cfg}
     holder = {}
@@ -326,6 +386,9 @@ def configs(tier, seed):
                                     'group': '%s:%s' % (target, path), 'm': n, 'variant': '%s/num=2/n=%d/u=%d/KG-null-on-2-more' % (path, n, u)})
     out[0]['canary'] = True
     out[-1]['canary'] = True
+    for case in (None, 1, 2, 3):
+        out.append({'target': 'ConeCyl.lb', 'case': case, 'num': 2, 'n': 12, 'active': [], 'path': 'sparse', 'group': 'ConeCyl.lb:combined_load_case=%s' % case,
+                    'm': 1, 'variant': 'conecyl/case=%s' % case})
     return out
 
 
@@ -339,6 +402,7 @@ def main():
     run.encoded('compmech/analysis/linear_buckling.py', 'lb')
     run.encoded('compmech/panel/_panel.py', 'Panel.lb')
     run.encoded('compmech/sparse.py', 'remove_null_cols')
+    run.encoded('compmech/conecyl/conecyl.py', 'ConeCyl.lb (matrices per combined_load_case, multipliers, padding)')
     cf = configs(run.tier, run.seed)
     run.bounds = {'sizes_n': sorted({c['n'] for c in cf}), 'num_eigvalues': sorted({c['num'] for c in cf}), 'paths': ['sparse', 'fallback (first ARPACK call fails)', 'dense'],
                   'null_patterns': 'full, two seeded null amplitudes, three active amplitudes', 'configurations': len(cf)}
@@ -346,10 +410,14 @@ def main():
                'ordering obligations only under: returned mu ascending and negative', 'shapes are concrete per configuration (sizes 5..7); symbolic-size reasoning is outside')
     run.stubs = ['scipy.sparse.linalg.eigsh', 'scipy.linalg.eigh', 'msg/warn']
     run.outside = ['that ARPACK with sigma=1, mode=cayley, which=SM returns the multipliers closest to 1 first; convergence; agreement of the two numerical paths',
-                   'ConeCyl.lb (third duplicate; needs a shell object)', 'sizes above 7']
+                   'sizes above 7']
     res = pmap(job, cf)
+    from .. import kprop
+    kprop.handle(run, [r for r in res if r['cfg'].get('target') == 'ConeCyl.lb'], build, 'obligations of the shell buckling wrapper fail')
     for r in res:
         cfg = r['cfg']
+        if cfg.get('target') == 'ConeCyl.lb':
+            continue
         if r.get('raised'):
             run.obligations += 1
             real = real_replay(cfg)
